@@ -1,13 +1,17 @@
 /-
   Props/C20.lean — singletons stay singletons when constructed concurrently.
 
-  * `agreement`      with the lock: for EVERY schedule and ANY number of threads, all threads that
-                     have returned hold the same object, it is the intern-table entry, and exactly one
-                     object was ever created for the key (`single_entry`);
-  * `later_lookup`   a later evaluation (a thread that starts after the others) returns that object;
-  * `race_exists`    without the lock there is a 6-step, 2-thread schedule on which the two threads
-                     obtain different objects (the defect the `fix:` commit repairs) — evaluated by
-                     the kernel; per run, `Obligations/C20.lean` checks which program /repo contains.
+  With the lock around the whole constructor call (`Lock.call`, the code after the `fix:` commit),
+  for EVERY schedule, ANY number of threads, and both kinds of registration (`_known` written in
+  `__new__`; `_by_name` written in `__init__`):
+  * `agreement`      all threads that have returned hold the same object and it is the registry entry;
+  * `single_entry`   at most one object is ever created for the key;
+  * `later_lookup`   a later evaluation returns that object.
+  Without it, kernel-evaluated counterexamples:
+  * `race_exists`           no lock: two threads, six steps, two objects (the pinned code);
+  * `race_new_only_lock`    a lock around `__new__` alone does not help a base unit, which is
+                            registered by `__init__`.
+  `Obligations/C20.lean` checks per run which program /repo contains.
 -/
 import Model.Threads
 
@@ -15,110 +19,120 @@ namespace Measured
 namespace C20
 open Threads
 
-/-- invariant: lock discipline + every returned object is the table entry + one allocation -/
-structure LockInv (s : Sh) : Prop where
-  holder : ∀ t, ((s.thr t).pc = .check ∨ (s.thr t).pc = .allocInsert ∨ (s.thr t).pc = .release) → s.lock = some t
-  alloc_none : ∀ t, (s.thr t).pc = .allocInsert → s.known = none
-  ret_known : ∀ t o, (s.thr t).ret = some o → s.known = some o
-  ret_pc : ∀ t, ((s.thr t).pc = .acquire ∨ (s.thr t).pc = .check ∨ (s.thr t).pc = .allocInsert) → (s.thr t).ret = none
-  count : (s.known = none ∧ s.next = 0) ∨ (s.known = some 0 ∧ s.next = 1)
+def inCS (p : PC) : Prop := p = .check ∨ p = .alloc ∨ p = .releaseNew ∨ p = .init ∨ p = .release
 
-theorem inv_init : LockInv ({} : Sh) := by
-  constructor
-  · intro t; simp
-  · intro t; simp
-  · intro t; simp
-  · intro t; simp
-  · exact Or.inl ⟨rfl, rfl⟩
+structure LockInv (ri : Bool) (s : Sh) : Prop where
+  holder : ∀ t, inCS (s.thr t).pc → s.lock = some t
+  ret_reg : ∀ t o, (s.thr t).ret = some o → s.reg = some o
+  ret_done : ∀ t, (s.thr t).pc ≠ .done → (s.thr t).ret = none
+  at_release : ∀ t, (s.thr t).pc = .release → s.reg = (s.thr t).obj ∧ ∃ o, (s.thr t).obj = some o
+  found : ∀ t, ((s.thr t).pc = .releaseNew ∨ (s.thr t).pc = .init) → (s.thr t).fresh = false →
+            s.reg = (s.thr t).obj ∧ ∃ o, (s.thr t).obj = some o
+  made : ∀ t, ((s.thr t).pc = .releaseNew ∨ (s.thr t).pc = .init) → (s.thr t).fresh = true →
+            (s.thr t).obj = some 0 ∧ s.next = 1 ∧ (ri = false → s.reg = some 0)
+  at_alloc : ∀ t, (s.thr t).pc = .alloc → s.reg = none ∧ s.next = 0
+  at_check : ∀ t, (s.thr t).pc = .check → s.reg = none → s.next = 0
+  count : s.next ≤ 1 ∧ ∀ o, s.reg = some o → o = 0 ∧ s.next = 1
+  idle : s.lock = none → s.reg = none → s.next = 0
 
-theorem inv_step (s : Sh) (t : Nat) (h : LockInv s) : LockInv (step true s t) := by
-  obtain ⟨h1, h2, h3, h4, h5⟩ := h
-  have a1 := h1 t; have a2 := h2 t; have a3 := h3 t; have a4 := h4 t
+theorem inv_init (ri : Bool) : LockInv ri ({} : Sh) := by
+  constructor <;> intros <;> simp_all [inCS]
+
+/-- split every `∀ thread` goal on "is it the thread that moved", then let `grind` close it -/
+local macro "close_goals" t:ident : tactic => `(tactic| all_goals first
+  | (intro u; by_cases hut : u = $t <;> (try simp only [upd, inCS, hut, if_true, if_false]) <;> grind [inCS])
+  | (simp only [upd, inCS]; grind)
+  | grind [upd, inCS])
+
+theorem inv_step (ri : Bool) (s : Sh) (t : Nat) (h : LockInv ri s) : LockInv ri (step .call ri s t) := by
+  obtain ⟨h1, h2, h3, h4, h5, h6, h7, h8, h9, h10⟩ := h
+  have a1 := h1 t; have a2 := h2 t; have a3 := h3 t; have a4 := h4 t; have a5 := h5 t
+  have a6 := h6 t; have a7 := h7 t; have a8 := h8 t
   unfold step
-  cases hpc : (s.thr t).pc <;> simp only [hpc, if_true] at a1 a2 a4 ⊢
-  · cases hl : s.lock with
-    | some x => exact ⟨h1, h2, h3, h4, h5⟩
+  cases hpc : (s.thr t).pc <;> simp only [hpc, inCS] at a1 a3 a4 a5 a6 a7 a8 ⊢
+  · -- acquire
+    simp only [show (Lock.call = Lock.none) = False from by simp, if_false]
+    cases hl : s.lock with
+    | some x => exact ⟨h1, h2, h3, h4, h5, h6, h7, h8, h9, h10⟩
     | none =>
-      refine ⟨?_, ?_, ?_, ?_, h5⟩ <;> intro u <;> by_cases hut : u = t <;> simp only [upd, hut, if_true, if_false] <;> grind
-  · cases hk : s.known with
+      refine ⟨?_, ?_, ?_, ?_, ?_, ?_, ?_, ?_, ?_, ?_⟩
+      close_goals t
+  · -- check
+    cases hk : s.reg with
     | some o =>
-      refine ⟨?_, ?_, ?_, ?_, ?_⟩
-      · intro u; by_cases hut : u = t <;> simp only [upd, hut, if_true, if_false] <;> grind
-      · intro u; by_cases hut : u = t <;> simp only [upd, hut, if_true, if_false] <;> grind
-      · intro u; by_cases hut : u = t <;> simp only [upd, hut, if_true, if_false] <;> grind
-      · intro u; by_cases hut : u = t <;> simp only [upd, hut, if_true, if_false] <;> grind
-      · simpa [hk] using h5
+      refine ⟨?_, ?_, ?_, ?_, ?_, ?_, ?_, ?_, ?_, ?_⟩
+      close_goals t
     | none =>
-      refine ⟨?_, ?_, ?_, ?_, ?_⟩
-      · intro u; by_cases hut : u = t <;> simp only [upd, hut, if_true, if_false] <;> grind
-      · intro u; by_cases hut : u = t <;> simp only [upd, hut, if_true, if_false] <;> grind
-      · intro u; by_cases hut : u = t <;> simp only [upd, hut, if_true, if_false] <;> grind
-      · intro u; by_cases hut : u = t <;> simp only [upd, hut, if_true, if_false] <;> grind
-      · simpa [hk] using h5
-  · have hkn := a2 trivial
-    have hnext : s.next = 0 := by
-      rcases h5 with ⟨_, h⟩ | ⟨h, _⟩
-      · exact h
-      · rw [hkn] at h; cases h
-    refine ⟨?_, ?_, ?_, ?_, ?_⟩
-    · intro u; by_cases hut : u = t <;> simp only [upd, hut, if_true, if_false] <;> grind
-    · intro u; by_cases hut : u = t <;> simp only [upd, hut, if_true, if_false] <;> grind
-    · intro u; by_cases hut : u = t <;> simp only [upd, hut, if_true, if_false] <;> grind
-    · intro u; by_cases hut : u = t <;> simp only [upd, hut, if_true, if_false] <;> grind
-    · right; simp [hnext]
-  · refine ⟨?_, ?_, ?_, ?_, h5⟩ <;> intro u <;> by_cases hut : u = t <;> simp only [upd, hut, if_true, if_false] <;> grind
-  · exact ⟨h1, h2, h3, h4, h5⟩
+      refine ⟨?_, ?_, ?_, ?_, ?_, ?_, ?_, ?_, ?_, ?_⟩
+      close_goals t
+  · -- alloc
+    cases ri
+    · refine ⟨?_, ?_, ?_, ?_, ?_, ?_, ?_, ?_, ?_, ?_⟩
+      close_goals t
+    · refine ⟨?_, ?_, ?_, ?_, ?_, ?_, ?_, ?_, ?_, ?_⟩
+      close_goals t
+  · -- releaseNew
+    simp only [show (Lock.call = Lock.newOnly) = False from by simp, if_false]
+    refine ⟨?_, ?_, ?_, ?_, ?_, ?_, ?_, ?_, ?_, ?_⟩
+    close_goals t
+  · -- init
+    cases ri <;> cases hf : (s.thr t).fresh
+    all_goals (refine ⟨?_, ?_, ?_, ?_, ?_, ?_, ?_, ?_, ?_, ?_⟩)
+    close_goals t
+  · -- release
+    simp only [if_true]
+    refine ⟨?_, ?_, ?_, ?_, ?_, ?_, ?_, ?_, ?_, ?_⟩
+    close_goals t
+  · exact ⟨h1, h2, h3, h4, h5, h6, h7, h8, h9, h10⟩
 
-theorem inv_run (s : Sh) (sched : List Nat) (h : LockInv s) : LockInv (run true s sched) := by
+theorem inv_run (ri : Bool) (s : Sh) (sched : List Nat) (h : LockInv ri s) : LockInv ri (run .call ri s sched) := by
   induction sched generalizing s with
   | nil => exact h
-  | cons t rest ih => exact ih _ (inv_step s t h)
+  | cons t rest ih => exact ih _ (inv_step ri s t h)
 
 /-- **Every schedule, any number of threads**: all threads that returned got the same object, and
-    it is the table entry. -/
-theorem agreement (sched : List Nat) (t u : Nat) (a b : Nat)
-    (ha : ((run true {} sched).thr t).ret = some a) (hb : ((run true {} sched).thr u).ret = some b) :
-    a = b ∧ (run true {} sched).known = some a := by
-  have h := inv_run {} sched inv_init
-  have h1 := h.ret_known t a ha
-  have h2 := h.ret_known u b hb
+    it is the registry entry. -/
+theorem agreement (ri : Bool) (sched : List Nat) (t u : Nat) (a b : Nat)
+    (ha : ((run .call ri {} sched).thr t).ret = some a) (hb : ((run .call ri {} sched).thr u).ret = some b) :
+    a = b ∧ (run .call ri {} sched).reg = some a := by
+  have h := inv_run ri {} sched (inv_init ri)
+  have h1 := h.ret_reg t a ha
+  have h2 := h.ret_reg u b hb
   rw [h1] at h2
   exact ⟨Option.some.inj h2, h1⟩
 
 /-- **The registry ends with a single entry**: at most one object is ever created for the key. -/
-theorem single_entry (sched : List Nat) : (run true {} sched).next ≤ 1 := by
-  have h := (inv_run {} sched inv_init).count
-  rcases h with ⟨_, h⟩ | ⟨_, h⟩ <;> omega
+theorem single_entry (ri : Bool) (sched : List Nat) : (run .call ri {} sched).next ≤ 1 :=
+  (inv_run ri {} sched (inv_init ri)).count.1
 
 /-- **Later evaluations return that object**: whatever happened before (`before`), a thread that
     evaluates afterwards (`after`, any continuation) obtains the object an earlier thread got. -/
-theorem later_lookup (before after : List Nat) (t u : Nat) (a b : Nat)
-    (ha : ((run true {} before).thr t).ret = some a)
-    (hb : ((run true {} (before ++ after)).thr u).ret = some b) : a = b := by
-  have hi := inv_run {} before inv_init
-  have hk := hi.ret_known t a ha
-  -- the entry, once set, never changes (count invariant: it is object 0 forever)
-  have h2 := inv_run {} (before ++ after) inv_init
-  have hk2 := h2.ret_known u b hb
-  have c1 := hi.count
-  have c2 := h2.count
-  rw [hk] at c1
-  rw [hk2] at c2
-  rcases c1 with ⟨c, _⟩ | ⟨c, _⟩
-  · cases c
-  · rcases c2 with ⟨d, _⟩ | ⟨d, _⟩
-    · cases d
-    · injection c with c; injection d with d; omega
+theorem later_lookup (ri : Bool) (before after : List Nat) (t u : Nat) (a b : Nat)
+    (ha : ((run .call ri {} before).thr t).ret = some a)
+    (hb : ((run .call ri {} (before ++ after)).thr u).ret = some b) : a = b := by
+  have hi := inv_run ri {} before (inv_init ri)
+  have h2 := inv_run ri {} (before ++ after) (inv_init ri)
+  have c1 := hi.count.2 a (hi.ret_reg t a ha)
+  have c2 := h2.count.2 b (h2.ret_reg u b hb)
+  omega
 
-/-- **Without the lock the property fails**: both threads miss, both create. -/
+/-- **Without the lock the property fails** (the pinned code): both threads miss, both create. -/
 theorem race_exists :
-    ((run false {} [0, 0, 1, 1, 0, 1]).thr 0).ret = some 0 ∧ ((run false {} [0, 0, 1, 1, 0, 1]).thr 1).ret = some 1 ∧
-    (run false {} [0, 0, 1, 1, 0, 1]).next = 2 := by
+    ((run .none false {} [0, 0, 1, 1, 0, 1, 0, 0, 0, 1, 1, 1]).thr 0).ret = some 0 ∧
+    ((run .none false {} [0, 0, 1, 1, 0, 1, 0, 0, 0, 1, 1, 1]).thr 1).ret = some 1 := by
   decide
 
-/-- Non-vacuity of `agreement`: a schedule on which two threads do return. -/
-example : ((run true {} [0, 1, 0, 0, 0, 1, 1, 1, 1]).thr 0).ret = some 0 ∧
-    ((run true {} [0, 1, 0, 0, 0, 1, 1, 1, 1]).thr 1).ret = some 0 := by decide
+/-- **A lock around `__new__` alone is not enough** for an object that is registered by `__init__`
+    (a base unit, found through `_by_name`): thread 1 runs its whole `__new__` between thread 0's
+    `__new__` and `__init__`. -/
+theorem race_new_only_lock :
+    ((run .newOnly true {} [0, 0, 0, 0, 1, 1, 1, 1, 0, 0, 1, 1]).thr 0).ret = some 0 ∧
+    ((run .newOnly true {} [0, 0, 0, 0, 1, 1, 1, 1, 0, 0, 1, 1]).thr 1).ret = some 1 := by
+  decide
+
+/-- Non-vacuity of `agreement`: a schedule on which two threads do return (both registrations). -/
+example : ((run .call true {} [0, 1, 0, 0, 0, 0, 0, 1, 1, 1, 1, 1, 1]).thr 0).ret = some 0 ∧
+    ((run .call true {} [0, 1, 0, 0, 0, 0, 0, 1, 1, 1, 1, 1, 1]).thr 1).ret = some 0 := by decide
 
 end C20
 end Measured
